@@ -17,20 +17,34 @@ Definition site_class : list (list N * N) := [
   ([115;114;99;47;102;115;47;114;101;99;115;46;114;115;32;102;114;111;109;95;102;105;109;103;32;99;104;117;110;107;115], 2);          (* src/fs/recs.rs from_fimg chunks *)
   ([115;114;99;47;102;115;47;114;101;99;115;46;114;115;32;117;112;100;97;116;101;95;102;105;109;103;32;109;97;112], 2);              (* src/fs/recs.rs update_fimg map *)
   ([115;114;99;47;102;115;47;109;111;100;46;114;115;32;99;111;109;98;105;110;101;95;105;103;110;111;114;97;98;108;101;95;111;102;102;115;101;116;115;32;111;116;104;101;114], 2);  (* src/fs/mod.rs combine_ignorable_offsets other *)
-  ([115;114;99;47;108;97;110;103;47;109;101;114;108;105;110;47;100;105;115;97;115;115;101;109;98;108;121;46;114;115;32;102;111;114;109;97;116;95;108;105;110;101;115;32;114;101;102;101;114;101;110;99;101;115], 3)  (* src/lang/merlin/disassembly.rs format_lines references *)
+  ([115;114;99;47;108;97;110;103;47;109;101;114;108;105;110;47;100;105;115;97;115;115;101;109;98;108;121;46;114;115;32;102;111;114;109;97;116;95;108;105;110;101;115;32;114;101;102;101;114;101;110;99;101;115], 3)   (* src/lang/merlin/disassembly.rs format_lines references *);
+  ([115;114;99;47;102;115;47;102;105;109;103;46;114;115;32;111;114;100;101;114;101;100;95;105;110;100;105;99;101;115;32;99;111;112;121], 1)   (* src/fs/fimg.rs ordered_indices copy *);
+  ([115;114;99;47;108;97;110;103;47;97;112;112;108;101;115;111;102;116;47;100;105;97;103;110;111;115;116;105;99;115;46;114;115;32;99;111;108;108;105;115;105;111;110;32;108;111;110;103;95;115;101;116], 1)   (* src/lang/applesoft/diagnostics.rs collision long_set *);
+  ([115;114;99;47;108;97;110;103;47;97;112;112;108;101;115;111;102;116;47;109;105;110;105;102;105;101;114;46;114;115;32;109;105;110;105;102;121;95;115;116;97;103;101;50;32;108;105;110;101;95;109;97;112], 2)   (* src/lang/applesoft/minifier.rs minify_stage2 line_map *);
+  ([115;114;99;47;108;97;110;103;47;109;101;114;108;105;110;47;100;105;97;103;110;111;115;116;105;99;115;47;109;111;100;46;114;115;32;101;114;114;95;119;97;114;110;95;105;110;102;111;95;99;111;117;110;116;115;32;100;105;97;103;110;111;115;116;105;99;95;115;101;116], 2)   (* src/lang/merlin/diagnostics/mod.rs err_warn_info_counts diagnostic_set *);
+  ([115;114;99;47;108;97;110;103;47;109;101;114;108;105;110;47;100;105;97;103;110;111;115;116;105;99;115;47;119;111;114;107;115;112;97;99;101;46;114;115;32;103;101;116;95;105;110;99;108;117;100;101;95;100;111;99;32;97;110;115], 3)   (* src/lang/merlin/diagnostics/workspace.rs get_include_doc ans *);
+  ([115;114;99;47;108;97;110;103;47;109;101;114;108;105;110;47;100;105;97;103;110;111;115;116;105;99;115;47;119;111;114;107;115;112;97;99;101;46;114;115;32;103;101;116;95;109;97;115;116;101;114;115;32;109;97;115;116;101;114;115], 2)   (* src/lang/merlin/diagnostics/workspace.rs get_masters masters *);
+  ([115;114;99;47;108;97;110;103;47;109;101;114;108;105;110;47;100;105;97;103;110;111;115;116;105;99;115;47;119;111;114;107;115;112;97;99;101;46;114;115;32;103;101;116;95;109;97;115;116;101;114;32;109;97;115;116;101;114;115], 2)   (* src/lang/merlin/diagnostics/workspace.rs get_master masters *)
 ].
 
 Fixpoint starts_with (p s : list N) : bool :=
   match p, s with [], _ => true | x :: r, y :: q => andb (N.eqb x y) (starts_with r q) | _, [] => false end.
-(* everything under src/lang/ other than the disassembler entry above, and src/bin/, is language-server state *)
+(* src/bin/ and what is under src/lang/ is language-server state (completion lists, symbol bookkeeping), EXCEPT the modules
+   whose results are printed or published: diagnostics, minifier, tokenizer, renumber, (dis)assembly - their sites must be listed above *)
 Definition lang_prefix : list N := [115;114;99;47;108;97;110;103;47].   (* "src/lang/" *)
 Definition bin_prefix : list N := [115;114;99;47;98;105;110;47].         (* "src/bin/" *)
 Fixpoint class_lookup (s : list N) (l : list (list N * N)) : option N :=
   match l with [] => None | (k, c) :: r => if list_eqb k s then Some c else class_lookup s r end.
+Fixpoint contains (p s : list N) : bool :=
+  match s with [] => match p with [] => true | _ => false end | _ :: r => orb (starts_with p s) (contains p r) end.
+Definition output_modules : list (list N) :=
+  [[100;105;97;103;110;111;115;116;105;99;115]; [109;105;110;105;102;105;101;114]; [116;111;107;101;110;105;122;101;114];
+   [114;101;110;117;109;98;101;114]; [97;115;115;101;109;98;108;121]].   (* diagnostics minifier tokenizer renumber assembly *)
 Definition class_of (s : list N) : option N :=
   match class_lookup s site_class with
   | Some c => Some c
-  | None => if orb (starts_with lang_prefix s) (starts_with bin_prefix s) then Some 4 else None
+  | None => if starts_with bin_prefix s then Some 4
+            else if andb (starts_with lang_prefix s) (negb (existsb (fun m => contains m s) output_modules)) then Some 4 else None
   end.
 
 (* rendering through sorted keys: what to_json does after the fix *)
